@@ -201,4 +201,210 @@ def encodeJoinAccept (c : Cipher) (appKey : Key) (d : JoinAcceptDesc) (bufLen : 
 def sessionKey (c : Cipher) (appKey : Key) (tag : UInt8) (joinNonce netId devNonce : Nat) : Key :=
   c.enc appKey (Block.ofPadded (tag :: (le 3 joinNonce ++ le 3 netId ++ le 2 devNonce)))
 
+/-! ## Receiving (§4: the same layout read backwards)
+
+A receiver is given an octet string.  Structure first (no keys needed): which message type, and for a
+data frame the header fields, FOpts, FPort, FRMPayload and MIC as laid out in §4.  Refusals:
+fewer than 12 octets (MHDR + minimal FHDR + MIC), Major ≠ 0, MType not a data type, FOptsLen larger
+than what lies between FCnt and the MIC. -/
+
+def mtypeOfCode : Nat → Option FType
+  | 2 => some .unconfirmedUp | 3 => some .unconfirmedDown | 4 => some .confirmedUp | 5 => some .confirmedDown
+  | _ => none
+
+/-- bit `n` of an octet -/
+def testBit (x : UInt8) (n : Nat) : Bool := x.toNat / 2 ^ n % 2 = 1
+
+/-- what a data frame says on the wire (FRMPayload still encrypted) -/
+structure DataView where
+  ftype : FType
+  uplink : Bool
+  confirmed : Bool
+  devAddr : UInt32
+  fctrl : UInt8
+  adr : Bool
+  /-- exists on uplinks only -/
+  adrAckReq : Bool
+  ack : Bool
+  /-- exists on downlinks only -/
+  fPending : Bool
+  foptsLen : Nat
+  /-- the 16 bits of the counter that are transmitted -/
+  fcnt16 : UInt16
+  fopts : Bytes
+  port : Option UInt8
+  frm : Bytes
+  mic : Bytes
+  deriving DecidableEq, Repr
+
+def decodeData (b : Bytes) : Except Err DataView :=
+  if b.length < 12 then .error .tooShort else
+  match b with
+  | mhdr :: a0 :: a1 :: a2 :: a3 :: fc :: c0 :: c1 :: tail =>
+    -- tail = FOpts | [FPort | FRMPayload] | MIC
+    if mhdr.toNat % 4 ≠ 0 then .error .unsupportedMajorVersion else
+    match mtypeOfCode (mhdr.toNat / 32) with
+    | none => .error .notADataFrame
+    | some ft =>
+      let foptsLen := fc.toNat % 16
+      let n := tail.length - 4
+      if foptsLen > n then .error .truncatedFhdr else
+      let body := (tail.take n).drop foptsLen
+      .ok { ftype := ft, uplink := ft.isUplink, confirmed := ft.isConfirmed
+            devAddr := UInt32.ofNat (fromLe [a0, a1, a2, a3])
+            fctrl := fc
+            adr := testBit fc 7
+            adrAckReq := ft.isUplink && testBit fc 6
+            ack := testBit fc 5
+            fPending := !ft.isUplink && testBit fc 4
+            foptsLen := foptsLen
+            fcnt16 := UInt16.ofNat (fromLe [c0, c1])
+            fopts := tail.take foptsLen
+            port := body.head?
+            frm := body.drop 1
+            mic := tail.drop n }
+  | _ => .error .tooShort
+
+/-- msg of a received frame: everything but the last four octets -/
+def msgOf (b : Bytes) : Bytes := b.take (b.length - 4)
+
+/-- a received data frame is authentic under NwkSKey and the receiver's 32-bit counter iff the MIC
+computed over B0 | msg, with the frame's own direction, equals the transmitted MIC -/
+def dataAuthentic (c : Cipher) (nwkSKey : Key) (fcnt : UInt32) (b : Bytes) (v : DataView) : Bool :=
+  dataMic c nwkSKey (dirOf v.ftype) v.devAddr fcnt (msgOf b) == v.mic
+
+/-- the counter a receiver decrypts with: upper 16 bits from its own 32-bit counter, lower 16 bits
+from the wire -/
+def fullFcnt (fcnt : UInt32) (wire : UInt16) : UInt32 := UInt32.ofNat (fcnt.toNat / 65536 * 65536 + wire.toNat)
+
+/-- the key protecting a received FRMPayload, if the receiver holds it -/
+def receiveKey (nwkSKey appSKey : Option Key) (v : DataView) : Option Key :=
+  match v.port with
+  | some port => if port = 0 then nwkSKey else appSKey
+  | none => nwkSKey
+
+/-- plaintext FRMPayload of a received frame (the view, and the plaintext) -/
+def decryptData (c : Cipher) (nwkSKey appSKey : Option Key) (fcnt : UInt32) (b : Bytes) : Except Err (DataView × Bytes) :=
+  match decodeData b with
+  | .error e => .error e
+  | .ok v =>
+    if v.frm.length = 0 then .ok (v, [])
+    else match receiveKey nwkSKey appSKey v with
+      | none => .error .missingKey
+      | some k => .ok (v, cryptPayload c k (dirOf v.ftype) v.devAddr (fullFcnt fcnt v.fcnt16) v.frm)
+
+/-- the octet string after the FRMPayload has been replaced by `plain` -/
+def withPayload (b : Bytes) (v : DataView) (plain : Bytes) : Bytes :=
+  b.take (b.length - 4 - v.frm.length) ++ plain ++ v.mic
+
+structure JoinRequestView where
+  joinEui : UInt64
+  devEui : UInt64
+  devNonce : UInt16
+  mic : Bytes
+  deriving DecidableEq, Repr
+
+/-- JoinRequest: exactly 23 octets -/
+def decodeJoinRequest (b : Bytes) : Except Err JoinRequestView :=
+  match b with
+  | [] => .error .tooShort
+  | mhdr :: rest =>
+    if mhdr.toNat % 4 ≠ 0 then .error .unsupportedMajorVersion
+    else if mhdr.toNat / 32 ≠ 0 then .error .unexpectedMessageType
+    else if rest.length ≠ 22 then .error .invalidLength
+    else .ok { joinEui := UInt64.ofNat (fromLe (rest.take 8)), devEui := UInt64.ofNat (fromLe ((rest.drop 8).take 8)),
+               devNonce := UInt16.ofNat (fromLe ((rest.drop 16).take 2)), mic := rest.drop 18 }
+
+def joinRequestAuthentic (c : Cipher) (appKey : Key) (b : Bytes) (v : JoinRequestView) : Bool :=
+  joinMic c appKey (msgOf b) == v.mic
+
+/-- an (encrypted) JoinAccept: MHDR | 16 or 32 octets -/
+def checkJoinAccept (b : Bytes) : Except Err Unit :=
+  match b with
+  | [] => .error .tooShort
+  | mhdr :: rest =>
+    if mhdr.toNat % 4 ≠ 0 then .error .unsupportedMajorVersion
+    else if mhdr.toNat / 32 ≠ 1 then .error .unexpectedMessageType
+    else if rest.length ≠ 16 ∧ rest.length ≠ 32 then .error .invalidLength
+    else .ok ()
+
+inductive CfListView where
+  | dynamic (freqs : List Nat)     -- five 24-bit values (units of 100 Hz)
+  | fixed (mask : Nat)             -- 72 mask bits
+  deriving DecidableEq, Repr
+
+structure JoinAcceptView where
+  joinNonce : Nat
+  netId : Nat
+  devAddr : UInt32
+  dlSettings : UInt8
+  rxDelay : UInt8
+  /-- `none` also when the CFListType octet is RFU (≥ 2) -/
+  cfList : Option CfListView
+  mic : Bytes
+  deriving DecidableEq, Repr
+
+/-- the device decrypts a JoinAccept with aes128_encrypt in ECB mode (§6.2.5) -/
+def joinAcceptClear (c : Cipher) (appKey : Key) (b : Bytes) : Bytes :=
+  match b with
+  | [] => []
+  | mhdr :: rest => mhdr :: ecb (c.enc appKey) (rest.length / 16) rest
+
+def decodeCfList (l : Bytes) : Option CfListView :=
+  -- 16 octets: 15 of content, then CFListType
+  match l.drop 15 with
+  | [t] =>
+    if t = 0 then some (.dynamic [fromLe (l.take 3), fromLe ((l.drop 3).take 3), fromLe ((l.drop 6).take 3),
+                                   fromLe ((l.drop 9).take 3), fromLe ((l.drop 12).take 3)])
+    else if t = 1 then some (.fixed (fromLe (l.take 9)))
+    else none
+  | _ => none
+
+/-- fields of a decrypted JoinAccept (`clear` = MHDR | plaintext) -/
+def joinAcceptView (clear : Bytes) : JoinAcceptView :=
+  let p := clear.drop 1
+  { joinNonce := fromLe (p.take 3), netId := fromLe ((p.drop 3).take 3)
+    devAddr := UInt32.ofNat (fromLe ((p.drop 6).take 4))
+    dlSettings := match p.drop 10 with | x :: _ => x | [] => 0
+    rxDelay := match p.drop 11 with | x :: _ => UInt8.ofNat (x.toNat % 16) | [] => 0
+    cfList := if p.length = 32 then decodeCfList ((p.drop 12).take 16) else none
+    mic := p.drop (p.length - 4) }
+
+/-- decrypt, read, authenticate -/
+def decodeJoinAccept (c : Cipher) (appKey : Key) (b : Bytes) : Except Err (Bytes × JoinAcceptView × Bool) :=
+  match checkJoinAccept b with
+  | .error e => .error e
+  | .ok () =>
+    let clear := joinAcceptClear c appKey b
+    let v := joinAcceptView clear
+    .ok (clear, v, joinMic c appKey (msgOf clear) == v.mic)
+
+inductive Decoded where
+  | joinRequest (v : JoinRequestView)
+  | joinAccept (bytes : Bytes)
+  | data (v : DataView)
+  deriving DecidableEq, Repr
+
+/-- classification by MHDR, then the type's own structure -/
+def decode (b : Bytes) : Except Err Decoded :=
+  match b with
+  | [] => .error .tooShort
+  | mhdr :: _ =>
+    if mhdr.toNat % 4 ≠ 0 then .error .unsupportedMajorVersion
+    else match mhdr.toNat / 32 with
+      | 0 => (decodeJoinRequest b).map .joinRequest
+      | 1 => (checkJoinAccept b).map fun _ => .joinAccept b
+      | 6 | 7 => .error .unsupportedMessageType      -- RFU, Proprietary
+      | _ => (decodeData b).map .data
+
+/-- the description a built frame must decode to: the flag that does not exist in the frame's
+direction (ADRACKReq on downlinks, FPending on uplinks) reads as false -/
+def DataDesc.norm (d : DataDesc) : DataDesc :=
+  { d with adrAckReq := d.ftype.isUplink && d.adrAckReq, fPending := !d.ftype.isUplink && d.fPending }
+
+/-- the description a decoded-and-decrypted frame denotes -/
+def DataView.toDesc (v : DataView) (fcnt : UInt32) (plain : Bytes) : DataDesc :=
+  { ftype := v.ftype, devAddr := v.devAddr, adr := v.adr, adrAckReq := v.adrAckReq, ack := v.ack, fPending := v.fPending
+    fcnt := fcnt, fopts := v.fopts, body := v.port.map fun p => (p, plain) }
+
 end Lora.Spec
